@@ -11,24 +11,37 @@ GENERATORS = [gen_authz.generate]
 LEAN_MODULES = ["FimVerif.Proofs.C11"]
 P = "FimVerif.C11."
 THEOREMS = [P + t for t in (
+    "authz_complete_sound_order_independent", "authz_claims", "authz_paths_agree_with_c10_validate",
+    "inferSite_is_c10_recordedSite", "validate_records_inferred_sites", "roundtrip_hypothesis_from_c01",
+    "listed_types_are_site_limited",
     "collect_spec", "complete", "complete_named", "sound", "perm_invariant", "keys_exact", "keys_perm_invariant",
+    "mirror_of_related_port_name_listed", "vm_without_capacities_counted", "shared_slivers_unchanged",
+    "shared_slivers_legacy_counterexample",
     "table_total", "ids_injective", "pdp_total", "pdp_request_wellformed", "pdp_no_extra",
     "collected_keys", "collected_in_resource_category",
     "log_counts", "log_perm_invariant", "inferSite_idem", "asm_eq_topo", "asm_inference_matters",
     "legacy_mirror_counterexample")]
 TRUSTED_BASE = [
-    "gen/authz.py: AST patterns for the attribute-id constants, ATTRIBUTE_TYPES_AND_CATEGORIES, NSTYPE_LUT, the literals "
-    "'sliver'/'switch-p4'/'UNKNOWN-SITE', the service-type set and exemption type of _collect_attributes_from_ns_sliver, "
-    "the CategoryId literals of transform_to_pdp_request",
+    "gen/authz.py: behavioural probes of ResourceAuthZAttributes on stand-in containers of real slivers (one node of every "
+    "NodeType, one service of every ServiceType with / without site / with its mirrored port in the slice, 100 "
+    "mirrored-port x in-slice-port name pairs, the PDP request of a fresh collector) and the class attributes "
+    "ATTRIBUTE_TYPES_AND_CATEGORIES / string constants read from the imported class; an answer the model has no parameter "
+    "for (two overriding node types, an exemption that is not exact equality of port names, ...) is an extraction error",
     "Model/Authz.lean mirrors by hand the control flow of ResourceAuthZAttributes._collect_attributes_from_{node_sliver,"
     "ns_sliver,topo}, transform_to_pdp_request and LogCollector._collect_attributes_from_{node_sliver,ns_sliver,"
     "component_sliver,topo}; python dict = insertion-ordered association list, defaultdict read = key creation; "
     "checked differentially on every run",
-    "the iteration order of topo.nodes / network_services / facilities and the sliver built by get_sliver() are taken from the "
-    "topology API (C07/C02 territory); sliver *contents* in the model request come from the generator's own description",
+    "the named hypotheses of authz_complete_sound_order_independent: H_present (what topo.nodes / network_services / "
+    "facilities / interface_list / get_sliver() present of a graph is a parameter `present`, C02/C07 territory; checked on "
+    "real topologies against the generator's own description), H_roundtrip (reduced by C01's roundtrip_import_direct to "
+    "'present does not read internal node ids', roundtrip_hypothesis_from_c01), H_validate_records_sites (discharged for "
+    "C10's model of validate() by validate_records_inferred_sites), H_valid (validate() succeeds; C10 decides when)",
     "the ASM path is modelled as recordSites (the site inference of NetworkService.__validate_nstype_constraints: exactly one "
-    "owner site, none declared) followed by the same fold; owner sites of a service's interfaces are supplied by the harness "
-    "from the slice description; the GraphML round trip itself is C01's",
+    "owner site, none declared; proved equal to C10's recordedSiteOf) followed by the same fold; owner sites of a service's "
+    "interfaces are supplied by the harness from the slice description",
+    "'in slice' for a mirrored port is the code's definition: the local_name label of the first peer of an interface in "
+    "topo.interface_list (ports of nodes and components; not sub-interfaces, not facility ports), compared exactly; a "
+    "mirror of a sub-interface's service port is therefore listed (the safe side), modelled the same way",
     "LogCollector 'sites'/'facilities' are Python sets, modelled as duplicate-free lists and compared sorted; "
     "LogCollector.__str__ (set iteration order) is not modelled",
 ]
@@ -36,14 +49,20 @@ ASSUMPTIONS = [
     "a topology *object* handed to the collectors has been validated (Topology.validate() records the site of single-site "
     "services; the collector's own comment requires it); a serialised model need not be - the ASM path validates itself, "
     "modelled as recordSites and exercised on models serialised before validate() ever ran; validate() is assumed to "
-    "succeed (C10 decides when it does); element names are unique (topo.nodes / network_services are dictionaries by name)",
+    "succeed (H_valid; C10 decides when it does); element names are unique (topo.nodes / network_services are dictionaries "
+    "by name) and satisfy the sliver-name pattern ^[\\w\\-\\.]{2,255}$",
     "one collector object per collection (collect_resource_attributes on a fresh ResourceAuthZAttributes / LogCollector)",
 ]
-RULE = ("slices of 0..7 nodes/services/facilities over 3 sites with several PortMirror/FABNetv4Ext/FABNetv6Ext services per site, "
-        "in-slice and outside mirrored ports, unset sites; every permutation of the stored order for <= 5 elements, 24 random "
-        "ones beyond; run through the real fold on stand-in topology containers of real slivers, through the public sliver "
-        "dispatch, and through real ExperimentTopology objects (several creation orders; service sites declared or left to "
-        "validate()) collected three ways: validated object, ASM serialised after validate(), ASM serialised before it; "
+RULE = ("slices of 0..7 nodes/services/facilities with several PortMirror/FABNetv4Ext/FABNetv6Ext services per site, in-slice and "
+        "outside mirrored ports, unset/empty sites, VMs with capacities / allocation / instance-type hint only / nothing; ALL names "
+        "(ports, sites, nodes, services, facilities) drawn from families of string-related names (proper prefix, sub-interface and "
+        "digit suffix, substring, case variant, empty, non-ASCII); exhaustive small scope first: every ordered pair of the port "
+        "family as (in-slice port, mirrored port), every ordered pair of the site family, every pair and the triple of listed "
+        "service kinds at one site; every permutation of the stored order for <= 5 elements, 24 random ones beyond; run through "
+        "the real fold on stand-in topology containers of real slivers, through the public sliver dispatch, and through real "
+        "ExperimentTopology objects (related names for sites, nodes, components, service-port labels and mirrored ports; services "
+        "on sub-interfaces; nodes without components; several creation orders; service sites declared or left to validate()) "
+        "collected three ways: validated object, ASM serialised after validate(), ASM serialised before it; "
         "non-trivial = >= 2 services needing a site attribute; distinct by (canonical slice in stored order, entry point)")
 
 RESOURCE_CATEGORY = "urn:oasis:names:tc:xacml:3.0:attribute-category:resource"
@@ -59,7 +78,8 @@ NTYPES = ["VM", "VM", "VM", "Switch", "Server", "Container", "NAS", "Facility"]
 # site names, element names).  The generators draw ONLY from these families, so related names meet in most slices.
 PORT_FAM = ["HundredGigE0/0/0/1", "HundredGigE0/0/0/10", "HundredGigE0/0/0/1.100", "HundredGigE0/0/0/", "hundredgige0/0/0/1",
             "p1", "p10", "p", "1p", "P1", "p1 ", "", "\u043f\u043e\u0440\u04421"]
-SITE_FAM = ["A", "AB", "ABC", "B", "a", "A ", "RENC", "RENC1", "ENC", "UNKNOWN-SITE", "UNKNOWN", "\u00c4", "\u30b5\u30a4\u30c8"]
+SITE_FAM = ["A", "AB", "ABC", "B", "a", "A ", "RENC", "RENC1", "ENC", "UNKNOWN-SITE", "UNKNOWN", "\u00c4", "\u30b5\u30a4\u30c8",
+            "\U0001d518"]
 NODE_FAM = ["n1", "n10", "n11", "nn", "N1", "n1-c1", "n2", "n1.1", "F1", "\u00f11"]      # sliver names: ^[\w\-\.]{2,255}$
 SVC_FAM = ["s1", "s10", "s11", "ss", "S1", "s1-ns", "s2", "s1.1", "n1", "\u015b1"]
 FAC_FAM = ["F1", "F10", "FF", "f1", "F1-ns", "\u04241"]
@@ -249,28 +269,68 @@ def impl_log(sl, entry="fold"):
 
 
 FIX_COMMIT = "a372b34"
-_LEGACY = []
+FIX2_COMMIT = "0131a6f"
+_BEFORE = {}
 
 
-def legacy_class():
-    """ResourceAuthZAttributes as it was before the repair, loaded from the parent of the fix commit (None if that object
-    is not in the repository any more). Ties Model/Authz.lean `collectLegacy` (theorem legacy_mirror_counterexample)."""
-    if not _LEGACY:
+def class_before(commit, must_contain, must_not_contain=None):
+    """ResourceAuthZAttributes as it was before a repair, loaded from the parent of the fix commit (None if that object is
+    not in the repository any more or does not look like the pre-repair source)."""
+    if commit not in _BEFORE:
         import subprocess
         import types
         from core import REPO
         cls = None
         try:
-            p = subprocess.run(["git", "-C", REPO, "show", FIX_COMMIT + "~1:fim/authz/attribute_collector.py"],
+            p = subprocess.run(["git", "-C", REPO, "show", commit + "~1:fim/authz/attribute_collector.py"],
                                capture_output=True, text=True, timeout=30)
-            if p.returncode == 0 and "self._attributes[resource_name].pop()" in p.stdout:
-                m = types.ModuleType("c11_legacy_attribute_collector")
-                exec(compile(p.stdout, "attribute_collector@%s~1" % FIX_COMMIT, "exec"), m.__dict__)
+            if p.returncode == 0 and must_contain in p.stdout and not (must_not_contain and must_not_contain in p.stdout):
+                m = types.ModuleType("c11_attribute_collector_before_" + commit)
+                exec(compile(p.stdout, "attribute_collector@%s~1" % commit, "exec"), m.__dict__)
                 cls = m.ResourceAuthZAttributes
         except Exception:
             cls = None
-        _LEGACY.append(cls)
-    return _LEGACY[0]
+        _BEFORE[commit] = cls
+    return _BEFORE[commit]
+
+
+def legacy_class():
+    """before the in-slice exemption was repaired. Ties Model/Authz.lean `collectLegacy` (theorem legacy_mirror_counterexample)."""
+    return class_before(FIX_COMMIT, "self._attributes[resource_name].pop()")
+
+
+def legacy_writing_class():
+    """before the placeholder was moved to a copy. Ties `svcStepObjLegacy` (theorem shared_slivers_legacy_counterexample)."""
+    return class_before(FIX2_COMMIT, 'sliver.site = "UNKNOWN-SITE"', "copy.copy(sliver)")
+
+
+def impl_shared(sl, cls=None):
+    """authorize, log, authorize again - the SAME sliver objects throughout, through the public sliver dispatch.
+    Returns the three replies."""
+    from fim.authz.attribute_collector import ResourceAuthZAttributes
+    from fim.logging.log_collector import LogCollector
+    cls = cls or ResourceAuthZAttributes
+    objs = [mk_node_sliver(n) for n in sl["nodes"]] + [mk_ns_sliver(s) for s in sl["svcs"]]
+
+    def authz():
+        try:
+            az = cls()
+            for x in objs:
+                az.collect_resource_attributes(source=x)
+        except Exception as e:
+            return ["err", err_kind(e)]
+        r = _authz_reply(az)
+        return r[0] if isinstance(r, tuple) else r
+
+    def log():
+        try:
+            lc = LogCollector()
+            for x in objs:
+                lc.collect_resource_attributes(source=x)
+        except Exception as e:
+            return ["err", err_kind(e)]
+        return _log_reply(lc)
+    return [authz(), log(), authz()]
 
 
 def impl_authz_legacy(sl):
@@ -536,19 +596,11 @@ def corner_tspecs():
         return d
     n1 = {"name": "n1", "site": "RENC", "caps": None, "hints": "fabric.c4.m16.d10",
           "comps": [dict(two, name="c1"), dict(two, name="c10"), dict(two, name="cc")]}
-    big = "HundredGigE0/0/0/1"
     return [
         {"nodes": [n0], "switch": None, "facs": [], "svcs": [
             sv("br", "L2Bridge", (0, 0, 0), "inport"), sv("pmout", "PortMirror", (0, 1, 0), mp="outport"),
             sv("pmin", "PortMirror", (0, 2, 0), mp="inport")]},
-        # the slice owns HundredGigE0/0/0/1 and mirrors three foreign ports whose names extend / shorten it, and its own
-        {"nodes": [n1], "switch": None, "facs": [], "svcs": [
-            sv("br", "L2Bridge", (0, 0, 0), big), sv("pm10", "PortMirror", (0, 1, 0), mp=big + "0"),
-            sv("pmsub", "PortMirror", (0, 1, 1), mp=big + ".100"), sv("pmshort", "PortMirror", (0, 2, 0), mp=big[:-1]),
-            sv("pmown", "PortMirror", (0, 2, 1), mp=big)]},
-        # two / three services of different listed kinds at one site; a VM sized by an instance-type hint only
-        {"nodes": [n1], "switch": None, "facs": [], "svcs": [
-            sv("v4", "FABNetv4Ext", (0, 0, 0)), sv("v6", "FABNetv6Ext", (0, 1, 0)), sv("pm", "PortMirror", (0, 2, 0), mp="foreign")]},
+        # (prefix-related port names, several listed kinds at one site, a VM sized by a hint only: corpus/C11/08)
         # a bridge on a sub-interface: its service-port label is not an in-slice port for the collector
         {"nodes": [n1], "switch": None, "facs": [], "svcs": [
             sv("brsub", "L2Bridge", (0, 0, 0), "p1.100", sub=True), sv("br", "L2Bridge", (0, 0, 1), "p1"),
@@ -676,6 +728,12 @@ def raw_of_tspec(ts, sl):
     return {"nodes": sl["nodes"], "svcs": svcs, "facs": sl["facs"], "ifaces": sl["ifaces"]}
 
 
+def components_only(sl):
+    """the slice reduced to what Component / ComponentSliver sources show a LogCollector: component types by node"""
+    return {"nodes": [{"name": n["name"], "t": "Server", "site": None, "caps": None, "alloc": None, "comps": n["comps"]}
+                      for n in sl["nodes"]], "svcs": [], "facs": [], "ifaces": []}
+
+
 def dispose(t):
     """Remove the topology's graph (and the re-import of it made by the ASM path, same GraphID) from the shared store:
     every lookup in the store scans all stored graphs."""
@@ -713,6 +771,39 @@ def collect_real(t, with_asm=True):
     lc = LogCollector()
     lc.collect_resource_attributes(source=t)
     out["log_topo"] = _log_reply(lc)
+    # the member-level sources of the same public entry point: Node / NetworkService handles (both collectors),
+    # Component handles and component slivers (LogCollector)
+    az = ResourceAuthZAttributes()
+    lc = LogCollector()
+    out["unsupported"] = []
+
+    def member(col, x):
+        # both dispatch tables are keyed by the exact class: a handle of a subclass (PortMirrorService, which is what
+        # t.network_services yields for a mirror) is refused loudly as 'Unsupported resource type' - not a silent omission,
+        # and outside the letter of the property; recorded in the evidence, and its sliver is collected instead
+        if type(x) not in col.METHOD_LUT and any(isinstance(x, k) for k in col.METHOD_LUT):
+            try:
+                col.collect_resource_attributes(source=x)
+            except Exception as e:
+                if "Unsupported resource type" not in str(e):
+                    raise
+                out["unsupported"].append(type(x).__name__)
+                col.collect_resource_attributes(source=x.get_sliver())
+        else:
+            col.collect_resource_attributes(source=x)
+    for n in t.nodes.values():
+        member(az, n)
+        member(lc, n)
+    for ns in t.network_services.values():
+        member(az, ns)
+        member(lc, ns)
+    out["authz_members"] = _authz_reply(az)
+    out["log_members"] = _log_reply(lc)
+    lc = LogCollector()
+    for i, n in enumerate(t.nodes.values()):
+        for j, c in enumerate(n.components.values()):
+            lc.collect_resource_attributes(source=c if (i + j) % 2 == 0 else c.get_sliver())
+    out["log_components"] = _log_reply(lc)
     if with_asm:
         out["authz_asm"], out["log_asm"] = collect_asm(t.serialize())
     return out
@@ -918,6 +1009,38 @@ def eval_slice(sl, rng, res, entry="fold", limit=24, count=True):
     return rows
 
 
+def eval_shared(sl, res):
+    """The SAME sliver objects handed to several collectors one after the other (what an aggregate manager does: authorize
+    a sliver, then log it): a collector must not change what it reads, so every collection equals the one made from
+    freshly built slivers - and hence the direct tally."""
+    q = for_dispatch(sl)
+    case = {"kind": "slice", "entry": "shared-slivers", "slice": q}
+    try:
+        a1, l1, a2 = impl_shared(q)
+    except Exception as e:
+        res.violation("C11:raises:" + err_kind(e), "collecting twice from the same slivers raised %s" % type(e).__name__, case)
+        return
+    a0 = impl_authz(q, "dispatch")[0]
+    l0 = impl_log(q, "dispatch")
+    res.evaluations += 1
+    if a0[0] != "ok" or a1[0] != "ok" or a2[0] != "ok" or l0[0] != "ok" or l1[0] != "ok":
+        return          # raising collections are reported by eval_slice
+    x0 = canon_attrs(a0)
+    for tag, a in (("first", a1), ("again-after-logging", a2)):
+        x = canon_attrs(a)
+        for k in sorted(set(x0) | set(x)):
+            if x0.get(k) != x.get(k):
+                res.violation("C11:input-mutated:" + _short(k), "the authorization attributes of slivers that were collected before "
+                              "differ from those of the same slivers freshly built (%s, %s): a collector changed its input"
+                              % (_short(k), tag), case, expected=x0.get(k), observed=x.get(k))
+    y0, y = canon_log(l0), canon_log(l1)
+    for k in y0:
+        if y0[k] != y[k]:
+            res.violation("C11:input-mutated:log:" + k, "the accounting summary of slivers that were authorized before differs from "
+                          "that of the same slivers freshly built ('%s'): the authorization collector changed its input" % k,
+                          case, expected=y0[k], observed=y[k])
+
+
 def run_tspec(ts, rng, k, with_asm=True):
     """Build the same slice in k creation orders and collect through the public entry points (topology and ASM)."""
     runs = []
@@ -993,6 +1116,15 @@ def judge_tspec(ts, runs, res, with_asm=True):
                 if canon_log(out["log_topo"]) != canon_log(out[lkey]):
                     res.violation("C11:%s:log" % tag, "accounting summary from the validated topology and from %s differ" % what, case,
                                   expected=canon_log(out["log_topo"]), observed=canon_log(out[lkey]))
+        if "authz_members" in out:
+            msl, mcase = for_dispatch(sl), dict(case, entry="members")
+            b = out["authz_members"]
+            if isinstance(b, tuple):
+                check_authz(msl, b[0], b[1], b[2], res, mcase, "members")
+            else:
+                res.violation("C11:raises:" + b[1], "PDP request raised (member-level sources)", mcase)
+            check_log(msl, out["log_members"], res, mcase, "members")
+            check_log(components_only(sl), out["log_components"], res, dict(case, entry="components"), "components")
         rows.append((sl, a0, out["log_topo"]))
     if rows:
         check_orders(rows, res, "topology", "topo")
@@ -1007,7 +1139,7 @@ def topo_runs(ctx, n=None, k=None):
     key = (n, k)
     cache = ctx.__dict__.setdefault("_c11_topo", {})
     if key not in cache:
-        tcases, trng = _tcases(ctx, "topo", n or ctx.scale(14, 200))
+        tcases, trng = _tcases(ctx, "topo", n or ctx.scale(12, 200))
         def weight(ts):
             return len(ts["nodes"]) + sum(len(n["comps"]) for n in ts["nodes"]) + len(ts["svcs"])
         # (every lookup of the topology API scans the whole store: the cost of one run grows with the square of the slice)
@@ -1064,6 +1196,20 @@ def correspondence(ctx, res):
                 reqs.append(["authz", q]); impl.append(a)
                 reqs.append(["log", q]); impl.append(impl_log(q, entry))
                 res.count("entry:" + entry, 2)
+    shared_at = {}
+    for sl in cases:
+        q = for_dispatch(sl)
+        shared_at[len(reqs)] = True
+        reqs.append(["shared", q]); impl.append(impl_shared(q))
+        res.count("entry:shared-slivers")
+    if legacy_writing_class() is not None:
+        for sl in cases[:ctx.scale(120, 600)]:
+            q = for_dispatch(sl)
+            shared_at[len(reqs)] = True
+            reqs.append(["shared-legacy", q]); impl.append(impl_shared(q, legacy_writing_class()))
+            res.count("entry:shared-slivers-legacy")
+    else:
+        ctx.notes.append("collector before %s not available from git; svcStepObjLegacy not compared" % FIX2_COMMIT)
     if legacy_class() is not None:
         for sl in cases[:ctx.scale(60, 400)]:
             for p in permutations_of(sl, rng, 6):
@@ -1086,10 +1232,24 @@ def correspondence(ctx, res):
             res.count("entry:topology", 2)
             res.count("entry:asm", 2)
             res.count("entry:asm-prevalidate", 2)
+            if "authz_members" in out:
+                msl = for_dispatch(run["slice"])
+                r = out["authz_members"]
+                reqs.append(["authz", msl]); impl.append(r[0] if isinstance(r, tuple) else r)
+                reqs.append(["log", msl]); impl.append(out["log_members"])
+                reqs.append(["log", components_only(run["slice"])]); impl.append(out["log_components"])
+                res.count("entry:topology-members", 2)
+                for u in out.get("unsupported", []):
+                    res.count("members:handle-class-refused-by-dispatch:" + u)
+                res.count("entry:components", 1)
     model = LeanDriver("C11").run([json.dumps(r) for r in reqs])
     for idx, (r, i, m) in enumerate(zip(reqs, impl, model)):
         res.evaluations += 1
         res.count("op:" + r[0])
+        if idx in shared_at:
+            if json.loads(canon(json.loads(m))) != json.loads(canon(i)):
+                res.disagreements.append({"case": r, "impl": i, "model": json.loads(m)})
+            continue
         if i[0] == "err":
             res.count("err:" + i[1])
         else:
@@ -1159,6 +1319,7 @@ def oracle(ctx, res, n=None, nt=None):
         _count_relations(res, sl, "slice")
         eval_slice(sl, rng, res, "fold", 24)
         eval_slice(sl, rng, res, "dispatch", 4)
+        eval_shared(sl, res)
     for ts, runs in topo_runs(ctx, nt):
         for run in runs[:1]:
             if "slice" in run:
@@ -1200,6 +1361,8 @@ def replay(ctx, payload):
     rng = ctx.sub_rng("replay")
     if c.get("entry") == "full-request":
         full_request(r)
+    elif c.get("entry") == "shared-slivers":
+        eval_shared(c["slice"], r)
     elif c.get("kind") == "topology":
         ts = c["tspec"]
         for s in ts["svcs"]:
